@@ -109,5 +109,96 @@ def r4(ctx):
     panic.property_rule(ctx, 'C30', 'C30-R4')
 
 
-RULES = [r1, r2, r3, r4]
-FLOORS = {'C30-R1': 20, 'C30-R2': 17, 'C30-R3': 8, 'C30-R4': 4}
+def r5(ctx):
+    ctx.rule('C30-R5', 'length header agreement: for every record variant, NtsRecord::body_size (written as the 16-bit length) equals the number of bytes '
+             'NtsRecord::serialize writes for that variant: 2 per write_u16, 2 per write_u16 and element in a loop over a field, the byte length of every '
+             'field handed to write_all (string fields: str::len, the UTF-8 byte length, for `as_bytes()`)')
+    P = ctx.P
+    R = 'ntp_proto::nts::record::NtsRecord'
+    variants = [v['name'] for v in P.adt(R)['variants']]
+    b = P.body(R + '::body_size')
+    so = [P and b.callee(c) for c in b.calls(r'mem::size_of$')]
+    ctx.check('body_size|unit-is-u16', bool(so) and all('u16' in str(fi.get('gargs')) for fi in so), 'size_of units: %s' % [fi.get('gargs') for fi in so], sample=len(so))
+
+    def poly_of_size(v):
+        """expanded body_size expression -> {field or '': multiplier}"""
+        out = {}
+        v = v.replace('mem::size_of()', '2')
+        for term in split_top(v, ' + '):
+            mult = 1
+            t = term
+            while True:
+                m = re.match(r'^\((.*) \* (\d+)\)$', t)
+                if not m:
+                    break
+                t, mult = m.group(1), mult * int(m.group(2))
+            m = re.match(r'^(?:slice|str)::len\(Cow::deref\((\(self as \w+\)\.\w+)\)\)$', t)
+            if m:
+                out[m.group(1)] = out.get(m.group(1), 0) + mult
+            elif re.match(r'^\d+$', t):
+                out[''] = out.get('', 0) + int(t) * mult
+            else:
+                out['?' + t[:60]] = mult
+        return {k: n for k, n in out.items() if n}
+
+    def split_top(v, sep):
+        if v.startswith('(') and v.endswith(')'):
+            depth, parts, cur, i = 0, [], '', 1
+            inner = v[1:-1]
+            # only split when the outer parentheses enclose a sum
+            d = 0
+            idx = []
+            for k, ch in enumerate(inner):
+                if ch in '([{':
+                    d += 1
+                elif ch in ')]}':
+                    d -= 1
+                elif d == 0 and inner.startswith(sep, k):
+                    idx.append(k)
+            if idx:
+                parts, last = [], 0
+                for k in idx:
+                    parts.append(inner[last:k])
+                    last = k + len(sep)
+                parts.append(inner[last:])
+                return parts
+        return [v]
+
+    size = {}
+    for s, v in ret_assigns(b):
+        arms = set()
+        for (_, _, fs) in b.dominating_facts(s.bb):
+            for f in fs:
+                if f.kind == 'is' and tstr(f.term) == 'self':
+                    arms |= set(f.variants)
+        for a in arms:
+            size[a] = poly_of_size(v)
+    e = P.body(R + '::serialize::{closure#0}')
+    wrote = {v: {} for v in variants}
+    for c in e.calls(r'AsyncWriteExt::write_u16$|AsyncWriteExt::write_all$'):
+        arms = [x for x in variants if e.must_pass(c.bb, fact_is(r'self$', [x]))]
+        if not arms:
+            continue        # the record type and the length header themselves
+        a = S(e.call_args(c)[1])
+        is16 = e.callee(c)['def'].endswith('write_u16')
+        loop = bool(e.succ(c.bb)) and e.can_reach(e.succ(c.bb)[0], c.bb)
+        for x in arms:
+            w = wrote[x]
+            if is16 and not loop:
+                w[''] = w.get('', 0) + 2
+            elif is16:
+                m = re.search(r'Iter::next\(I::into_iter\(slice::iter\(Cow::deref\((\(self as \w+\)\.\w+)\)\)\)\)', a)
+                k = m.group(1) if m else '?' + a[:60]
+                w[k] = w.get(k, 0) + 2
+            else:
+                m = re.match(r'^(?:str::as_bytes\()?Cow::deref\((\(self as \w+\)\.\w+)\)\)?$', a)
+                k = m.group(1) if m else '?' + a[:60]
+                w[k] = w.get(k, 0) + 1
+    ctx.check('body_size|all-variants', set(size) == set(variants), 'body_size covers %s' % sorted(size), sample=sorted(size))
+    for x in variants:
+        ctx.check('body_size|%s|equals-bytes-written' % x, size.get(x) == wrote[x], 'record %s: length header is %s but serialize writes %s (field -> bytes per element)' % (
+            x, size.get(x), wrote[x]), sample=[size.get(x), wrote[x]])
+
+
+RULES = [r1, r2, r3, r4, r5]
+FLOORS = {'C30-R1': 20, 'C30-R2': 17, 'C30-R3': 8, 'C30-R4': 4, 'C30-R5': 17}
